@@ -167,6 +167,18 @@ class Ctx:
         for t in theorems:
             self.oblige("theorem " + t, ok, "" if ok else out[-800:])
         self.print_assumptions = {"closed": closed, "axioms": axioms}
+        if ok and self.tier == "thorough":
+            # independent re-check of the compiled statements file and of
+            # everything it depends on, standard library included
+            with Lock():
+                q = run(["coqchk", "-silent", "-o", "-Q", ".", "Martian", "Martian.Properties." + self.prop],
+                        cwd=COQ, timeout=2700)
+            flat = " ".join(q.stdout.split())
+            clean = all(x in flat for x in ("Axioms: <none>", "type-in-type: <none>",
+                                            "unsafe (co)fixpoints: <none>", "positivity is assumed: <none>"))
+            self.oblige("coqchk re-checks Properties/%s.vo and all its dependencies: no axioms, no type-in-type, "
+                        "no unsafe fixpoints, no assumed positivity" % self.prop, q.returncode == 0 and clean, q.stdout[-900:])
+            self.print_assumptions["coqchk"] = "clean" if (q.returncode == 0 and clean) else "not clean"
         return theorems
 
     def coq_eval(self, text, name="cases", timeout=600):
